@@ -48,6 +48,8 @@ pub fn run(tier: &str, seed: u64, out: &str) {
     silence_panics();
     let mut rep = Report::new("C01", tier, seed);
     let mut cases: Vec<EmitCase> = gen_cases("C01", tier, seed, &mut rep);
+    // one process per case: the quick tier takes the bundled / corpus documents and the first 300 generated ones
+    if tier != "thorough" { let mut g = 0; cases.retain(|c| { if c.label.starts_with("(generated") { g += 1; g <= 300 } else { true } }); }
     // configurations: service names that collide with words of the language; valid derive lists only
     let rng0 = Rng::new(seed ^ 0xc01);
     for (i, c) in cases.iter_mut().enumerate() {
